@@ -530,6 +530,7 @@ class Engine:
             except SymContinue:
                 pass
             run.cover(f"{name} body end")
+            spec.after_body(run, env, i, seq)
             for nm, g in spec.invariant(run, env, i + 1, seq):
                 run.oblige(f"{name} invariant preserved: {nm}", g, kind="invariant")
             raise PathEnd()
@@ -565,6 +566,7 @@ class Engine:
             except SymContinue:
                 pass
             run.cover(f"{name} body end")
+            spec.after_body(run, env, i, None)
             for nm, g in spec.invariant(run, env, i + 1, None):
                 run.oblige(f"{name} invariant preserved: {nm}", g, kind="invariant")
             if v0 is not None:
@@ -1242,6 +1244,10 @@ class LoopSpec:
         pass
 
     def before_body(self, run, env, i, seq):
+        pass
+
+    def after_body(self, run, env, i, seq):
+        """ghost updates after one iteration (before the invariant is re-established)"""
         pass
 
     def at_exit(self, run, env, i, seq):
